@@ -4,6 +4,9 @@ import itertools
 from .harness import Spec
 
 SETUP = '''
+import os
+os.environ.pop('BEARTYPE_IS_COLOR', None)
+#@ENV@
 import itertools
 from beartype import BeartypeDecorPlace, BeartypeViolationVerbosity, BeartypeHintOverrides
 from beartype.roar import BeartypeConfParamException
@@ -117,7 +120,10 @@ def effective(kw):
     for o in VTYPES:
         if kw.get(o) is None:
             full[o] = vt if vt is not None else DEFAULTS[o]
-    if full.get('is_color') is None:
+    if os.environ.get('BEARTYPE_IS_COLOR') is not None:
+        # documented environment-variable adjustment: the variable wins over whatever was passed
+        full['is_color'] = {'True': True, 'False': False, 'None': None}[os.environ['BEARTYPE_IS_COLOR']]
+    elif full.get('is_color') is None:
         full['is_color'] = DEFAULT_IS_COLOR
     if full.get('is_pep484_tower') is True and isinstance(full.get('hint_overrides'), FrozenDict):
         # documented numeric-tower adjustment: the tower's expansions join the overrides
@@ -372,6 +378,16 @@ def spec_lookalike(a):
                 warm=['0, 1', '2, 4', '6, 0'], timeout=200, stubs=False)
 
 
+def spec_env_color(value):
+    """is_color (valid and invalid values) while the BEARTYPE_IS_COLOR environment variable is set."""
+    params = [('i1', 'int'), ('i2', 'int'), ('w', NUM)]
+    body = ("M = [True, False, None, 1, 'junk', 0.0]\n"
+            "return check_history([{'is_color': pick(M, i1)}, {'is_debug': w, 'is_color': pick(M, i2)}])")
+    setup = SETUP.replace('#@ENV@', f"os.environ['BEARTYPE_IS_COLOR'] = {value!r}")
+    return Spec(f'envcolor_{value}', params, body, setup=setup, pre=['0 <= i1 < 6', '0 <= i2 < 6'] + _num_pre(['w']),
+                warm=['0, 1, True', '2, 0, False', '1, 2, None'], timeout=200, stubs=False)
+
+
 def spec_cls_bool(a, b):
     params = [('i1', 'int'), ('i2', 'int'), ('w1', NUM), ('w2', NUM)]
     body = (f"return check_history([{{'{a}': pick(CLASSES, i1), '{b}': w1}}, {{'{b}': w2, '{a}': pick(CLASSES, i2)}}])")
@@ -393,7 +409,7 @@ def specs(tier, seed=0):
                 spec_cls_pair('violation_type', 'violation_door_type'), spec_cls_quad(2),
                 spec_coll('claw_skip_package_names', 13), spec_coll('hint_overrides', 8), spec_tower(),
                 spec_lookalike('is_debug'), spec_lookalike('is_color'),
-                spec_enum_pair('claw_decor_place_func', 'claw_decor_place_type')]
+                spec_enum_pair('claw_decor_place_func', 'claw_decor_place_type'), spec_env_color('True')]
         # a seed-dependent handful of the 136 option pairs (all of them in the thorough tier)
         rng = _random.Random(f'c17:{seed}')
         out += [spec_generic_pair(a, b) for a, b in rng.sample(every_pair, 4)]
@@ -410,6 +426,7 @@ def specs(tier, seed=0):
     out.append(spec_cls_quad(3))
     out += [spec_lookalike(a) for a in BOOL_OPTS]
     out += [spec_generic_pair(a, b) for a, b in every_pair]
+    out += [spec_env_color(v) for v in ('True', 'False', 'None')]
     out += [spec_enum_pair('claw_decor_place_func', 'claw_decor_place_type'), spec_enum_pair('strategy', 'violation_verbosity'),
             spec_enum_pair('claw_decor_place_type', 'strategy')]
     out += [spec_tower(), spec_coll('claw_skip_package_names', 13), spec_coll('hint_overrides', 8),
